@@ -235,6 +235,57 @@ func (m *mirrorCtx) checkSetIndex(label string, idxPath []string, holders map[st
 			m.bad("C03", "set-index-stale:"+label, "set index %s: stale value %q -> %v", label, val, ids)
 		}
 	}
+	for val, ids := range holders {
+		for _, fwd := range []bool{true, false} {
+			if got := cursorIds(idx.OpenValueCursor(m.tx, []byte(val), fwd)); !sameSet(got, ids) {
+				m.bad("C03", "set-index-read:"+label, "set index %s: OpenValueCursor(%q, forward=%v)=%v, held by %v", label, val, fwd, got, ids)
+			}
+		}
+		if got := m.s.People.FindMatching(m.tx, idx, []string{val}); !sameSet(got, ids) {
+			m.bad("C03", "set-index-read:"+label, "set index %s: FindMatching(%q)=%v, held by %v", label, val, got, ids)
+		}
+	}
+	{
+		var all []string
+		for val := range holders {
+			all = append(all, val)
+		}
+		sort.Strings(all)
+		if len(all) >= 2 {
+			both := map[string]bool{}
+			any := map[string]bool{}
+			for _, id := range holders[all[0]] {
+				any[id] = true
+				if containsStr(holders[all[1]], id) {
+					both[id] = true
+				}
+			}
+			for _, id := range holders[all[1]] {
+				any[id] = true
+			}
+			if got := m.s.People.FindMatching(m.tx, idx, all[:2]); !sameSet(got, sortedKeys(both)) {
+				m.bad("C03", "set-index-read:"+label, "set index %s: FindMatching(%v)=%v, entities holding both are %v", label, all[:2], got, sortedKeys(both))
+			}
+			if got := m.s.People.FindMatchingAnyOf(m.tx, idx, all[:2]); !sameSet(got, sortedKeys(any)) {
+				m.bad("C03", "set-index-read:"+label, "set index %s: FindMatchingAnyOf(%v)=%v, entities holding either are %v", label, all[:2], got, sortedKeys(any))
+			}
+			if got := cursorIds(m.s.People.IteratorMatchingAllOf(idx, all[:2])(m.tx, true)); !sameSet(got, sortedKeys(both)) {
+				m.bad("C03", "set-index-read:"+label, "set index %s: IteratorMatchingAllOf(%v)=%v, entities holding both are %v", label, all[:2], got, sortedKeys(both))
+			}
+			if got := cursorIds(m.s.People.IteratorMatchingAnyOf(idx, all[:2])(m.tx, true)); !sameSet(got, sortedKeys(any)) {
+				m.bad("C03", "set-index-read:"+label, "set index %s: IteratorMatchingAnyOf(%v)=%v, entities holding either are %v", label, all[:2], got, sortedKeys(any))
+			}
+		}
+	}
+	for _, fwd := range []bool{true, false} {
+		var want []string
+		for val := range holders {
+			want = append(want, val)
+		}
+		if got := cursorIds(idx.OpenKeyCursor(m.tx, fwd)); !sameSet(got, want) {
+			m.bad("C03", "set-index-keys:"+label, "set index %s: OpenKeyCursor(forward=%v)=%v, values in use %v", label, fwd, got, want)
+		}
+	}
 	var keys []string
 	idx.ReadKeys(m.tx, func(v []byte) { keys = append(keys, string(v)) })
 	var want []string
@@ -281,6 +332,16 @@ func (m *mirrorCtx) checkBackrefs(label string, targetStore, field string, targe
 		api := m.s.ByName(targetStore).GetRelatedEntitiesIdList(m.tx, t, field)
 		if !sameSet(api, want[t]) {
 			m.bad("C04", "fk-backref-api:"+label, "fk %s: GetRelatedEntitiesIdList(%q,%s)=%v, referrers are %v", label, t, field, api, want[t])
+		}
+		for _, fwd := range []bool{true, false} {
+			if got := cursorIds(m.s.ByName(targetStore).GetRelatedEntitiesCursor(m.tx, t, field, fwd)); !sameSet(got, want[t]) {
+				m.bad("C04", "fk-backref-api:"+label, "fk %s: GetRelatedEntitiesCursor(%q,%s,forward=%v)=%v, referrers are %v", label, t, field, fwd, got, want[t])
+			}
+		}
+		for _, id := range refIds {
+			if got := m.s.ByName(targetStore).IsEntityRelated(m.tx, t, field, id); got != containsStr(want[t], id) {
+				m.bad("C04", "fk-backref-api:"+label, "fk %s: IsEntityRelated(%q,%s,%q)=%v, referrers are %v", label, t, field, id, got, want[t])
+			}
 		}
 	}
 }
@@ -442,6 +503,20 @@ func Mirror(tx *bbolt.Tx, s *Stores) []Violation {
 			a, b := s.People.rcKudos.GetLinkCounts(tx, []byte(p), []byte(g))
 			if a == nil || b == nil || *a != c || *b != c {
 				m.bad("C05", "rc-api:people.kudos", "GetLinkCounts(%q,%q) disagrees with stored count %d", p, g, c)
+			}
+			if x := s.Groups.rcKudosFrom.GetLinkCount(tx, []byte(g), []byte(p)); x == nil || *x != c {
+				m.bad("C05", "rc-api:groups.kudosFrom", "GetLinkCount(%q,%q)=%v, stored count %d", g, p, i32(x), c)
+			}
+		}
+	}
+	for _, p := range people {
+		var want []string
+		for g := range rcOf(StPeople, p, "kudos") {
+			want = append(want, g)
+		}
+		for _, fwd := range []bool{true, false} {
+			if got := cursorIds(s.People.rcKudos.IterateLinks(tx, []byte(p), fwd)); !sameSet(got, want) {
+				m.bad("C05", "rc-api:people.kudos", "rc IterateLinks(%q, forward=%v)=%v, bucket holds %v", p, fwd, got, want)
 			}
 		}
 	}
@@ -794,6 +869,16 @@ func ChildViews(tx *bbolt.Tx, s *Stores, m *Model, names, roles []string) []Viol
 			}
 			if strings.Join(ids, ",") != strings.Join(want, ",") || int(cnt) != len(v.listed) {
 				bad("query-limit:"+v.name, "%s.QueryIds(limit 2)=%q count %d, want %q count %d", v.name, ids, cnt, want, len(v.listed))
+			}
+		}
+		if q, perr := ast.Parse(v.store, "limit 2"); perr == nil {
+			ids, cnt, err := v.store.QueryIdsC(tx, q)
+			want := v.listed
+			if len(want) > 2 {
+				want = want[:2]
+			}
+			if err != nil || strings.Join(ids, ",") != strings.Join(want, ",") || int(cnt) != len(v.listed) {
+				bad("query-limit:"+v.name, "%s.QueryIdsC(limit 2)=%q count %d err=%v, want %q count %d", v.name, ids, cnt, err, want, len(v.listed))
 			}
 		}
 		ids, cnt, err := v.store.QueryIds(tx, "")
